@@ -908,3 +908,124 @@ theorem tblOptimize_idem (t : Tbl) (h : Inv t) : tblOptimize (tblOptimize t) = t
   simp only [fresh, hA, hB, hC, if_neg hD]
 
 end Odf.Transform
+
+/-! ### `optimize_width` removes only trailing empty rows and trailing empty cells -/
+namespace Odf.Transform
+open Odf.Rle Odf.Table Odf.Grid
+
+theorem forceWidth_prefix (w : Nat) (d : RowD) (hp : Pos d) (hw : minimizedWidth d ≤ w) :
+    ∃ suf, expand d = expand (forceWidth w d) ++ suf ∧ ∀ c ∈ suf, empOf true c = true := by
+  unfold forceWidth
+  cases hl : d.getLast? with
+  | none => exact ⟨[], by simp, by simp⟩
+  | some p =>
+    obtain ⟨c, n⟩ := p
+    simp only
+    split
+    · rename_i hcond
+      obtain ⟨he, hn2, hgt⟩ := hcond
+      have hne : d ≠ [] := by intro hc; subst hc; simp at hl
+      have hd : d = d.dropLast ++ [(c, n)] := by
+        have := List.dropLast_concat_getLast hne
+        rw [List.getLast?_eq_some_getLast hne] at hl
+        simp only [Option.some.injEq] at hl
+        rw [hl] at this
+        exact this.symm
+      have ht := total_dropLast_getLast d c n hl
+      have hmw : minimizedWidth d = total d - n + 1 := by
+        unfold minimizedWidth; rw [hl]; simp only; rw [if_pos he]
+      rw [hmw] at hw
+      refine ⟨List.replicate (total d - w) c, ?_, ?_⟩
+      · conv => lhs; rw [hd]
+        rw [expand_append, expand_append]
+        simp only [expand_cons, expand_nil, List.append_nil, List.append_assoc]
+        congr 1
+        rw [List.replicate_append_replicate]
+        congr 1
+        omega
+      · intro x hx
+        rw [(List.mem_replicate.mp hx).2]
+        exact he
+    · exact ⟨[], by simp, by simp⟩
+
+/-- the rows kept by `_optimize_width_trim_rows` are a prefix of the rows, what is cut off is empty rows -/
+theorem trimRowsOpt_prefix (rows : Runs RowD) (hp : Pos rows) :
+    ∃ cut, expand rows = expand (trimRowsOpt rows) ++ cut ∧ ∀ d ∈ cut, d.all (fun c => empOf false c.1) = true := by
+  unfold trimRowsOpt
+  simp only
+  obtain ⟨suf, e, hs⟩ := rstripList_split (fun (r : RowD × Nat) => r.1.all (fun c => empOf false c.1)) rows
+  generalize rstripList (fun (r : RowD × Nat) => r.1.all (fun c => empOf false c.1)) rows = kept at e
+  cases hd : rows.drop kept.length with
+  | nil => exact ⟨[], by simp, by simp⟩
+  | cons p rest =>
+    obtain ⟨d, n⟩ := p
+    simp only
+    have hsuf : suf = (d, n) :: rest := by
+      have := congrArg (List.drop kept.length) e
+      rw [drop_len_append] at this
+      rw [← this]; exact hd
+    have hn : 1 ≤ n := hp (d, n) (by rw [e, hsuf]; simp)
+    refine ⟨List.replicate (n - 1) d ++ expand rest, ?_, ?_⟩
+    · conv => lhs; rw [e, hsuf]
+      rw [expand_append, expand_append]
+      simp only [expand_cons, expand_nil, List.append_nil, List.append_assoc]
+      congr 1
+      rw [← List.append_assoc, List.replicate_append_replicate]
+      congr 2
+      omega
+    · intro x hx
+      simp only [List.mem_append, List.mem_replicate] at hx
+      rcases hx with ⟨_, rfl⟩ | hx
+      · exact hs (x, n) (by rw [hsuf]; simp)
+      · obtain ⟨m, hm⟩ := mem_expand rest x hx
+        exact hs (x, m) (by rw [hsuf]; simp [hm])
+
+/-- **optimize_width removes only trailing empty rows and trailing empty cells**: the rows of the result are, one by one,
+    the first rows of the table, each cut of a block of trailing empty cells; the rows that go are empty -/
+theorem tblOptimize_only_trailing (t : Tbl) (h : Inv t) :
+    ∃ cut : List RowD,
+      (expand t.rows.runs).length = (absT (tblOptimize t)).rows.length + cut.length ∧
+      (∀ d ∈ cut, d.all (fun c => empOf false c.1) = true) ∧
+      ∀ (y : Nat) (row' : List Nat), (absT (tblOptimize t)).rows[y]? = some row' →
+        ∃ (row suf : List Nat), (absT t).rows[y]? = some row ∧ row = row' ++ suf ∧ ∀ c ∈ suf, empOf true c = true := by
+  have hposR : Pos t.rows.runs := h.rows.2
+  obtain ⟨cut, hcut, hcutE⟩ := trimRowsOpt_prefix t.rows.runs hposR
+  generalize hr1 : trimRowsOpt t.rows.runs = rows1 at hcut
+  have hcell1 : ∀ q ∈ rows1, Pos q.1 := by
+    intro q hq
+    obtain ⟨n, hn⟩ := trimRowsOpt_cells t.rows.runs q (by rw [hr1]; exact hq)
+    exact h.cells (q.1, n) hn
+  generalize hwd : (rows1.map (fun r => minimizedWidth r.1)).foldl max 0 = w
+  have hwge : ∀ q ∈ rows1, minimizedWidth q.1 ≤ w := by
+    intro q hq
+    rw [← hwd]
+    exact foldl_max_pos (rows1.map (fun r => minimizedWidth r.1)) (minimizedWidth q.1) (List.mem_map.mpr ⟨q, hq, rfl⟩) 0
+  have hrows : (absT (tblOptimize t)).rows = (expand rows1).map (fun d => expand (forceWidth w d)) := by
+    unfold tblOptimize absT
+    simp only [hr1, hwd, fresh]
+    rw [expand_map_fst, List.map_map]
+    rfl
+  refine ⟨cut, ?_, hcutE, ?_⟩
+  · rw [hrows, hcut]; simp
+  · intro y row' hy
+    rw [hrows, List.getElem?_map] at hy
+    cases hd : (expand rows1)[y]? with
+    | none => rw [hd] at hy; cases hy
+    | some d =>
+      rw [hd] at hy
+      simp only [Option.map_some, Option.some.injEq] at hy
+      subst hy
+      obtain ⟨n, hn⟩ := mem_expand rows1 d (List.mem_of_getElem? hd)
+      obtain ⟨suf, e, hs⟩ := forceWidth_prefix w d (hcell1 (d, n) hn) (hwge (d, n) hn)
+      refine ⟨expand d, suf, ?_, e, hs⟩
+      unfold absT
+      simp only [List.getElem?_map]
+      rw [hcut]
+      have hlt : y < (expand rows1).length := by
+        rcases Nat.lt_or_ge y (expand rows1).length with hlt | hge
+        · exact hlt
+        · rw [List.getElem?_eq_none hge] at hd; cases hd
+      rw [List.getElem?_append_left hlt, hd]
+      rfl
+
+end Odf.Transform
